@@ -6,8 +6,8 @@ package cache
 // C09: the file-system cache may hand back contents read in an earlier build only when the file's
 // modification key, read NOW, is usable (no error now, and usable when the entry was stored) and equal to the
 // stored one. Any other path must go to the file system. (Dominance over go/ssa.)
-//@ guarded fs-cache-hit C09: func=(*FSCache).ReadFile ; in=cache ; site=assign contents *.contents ; require=true:call ReadFile$1().modKey==call ModKey(fs,path)#0 && true:call ModKey(fs,path)#1==nil && true:call ReadFile$1().isModKeyUsable && true:call ReadFile$1()!=nil
+//@ guarded fs-cache-hit C09: func=(*FSCache).ReadFile ; in=cache ; site=assign contents *.contents ; require=true:*.modKey==call ModKey(*)#0 && true:call ModKey(*)#1==nil && true:*.isModKeyUsable && true:*!=nil
 // what is stored for the next build is what was just read, under the key read just before it, marked usable iff that key was
-//@ flow fs-cache-stores-what-was-read C09: func=(*FSCache).ReadFile ; in=cache ; site=store fsEntry.contents ; valuepath=*call ReadFile(fs,path)#0*|contents
-//@ flow fs-cache-stores-current-key C09: func=(*FSCache).ReadFile ; in=cache ; site=store fsEntry.modKey ; valuepath=call ModKey(fs,path)#0
-//@ flow fs-cache-usable-iff-no-error C09: func=(*FSCache).ReadFile ; in=cache ; site=store fsEntry.isModKeyUsable ; valuepath=call ModKey(fs,path)#1==nil
+//@ flow fs-cache-stores-what-was-read C09: func=(*FSCache).ReadFile ; in=cache ; site=store fsEntry.contents ; valuepath=*call ReadFile(*)#0*|contents
+//@ flow fs-cache-stores-current-key C09: func=(*FSCache).ReadFile ; in=cache ; site=store fsEntry.modKey ; valuepath=call ModKey(*)#0
+//@ flow fs-cache-usable-iff-no-error C09: func=(*FSCache).ReadFile ; in=cache ; site=store fsEntry.isModKeyUsable ; valuepath=call ModKey(*)#1==nil
